@@ -122,10 +122,10 @@ def _wrap_in_cse(ctx, model):
 def _make_cse(ctx, model):
     m, fn = model.func(f"{PRIM}:make_common_subexpression")
     loc = m.loc(fn)
-    src = ast.unparse(fn)
-    F = ("param", "field")
+    F = ("param", fn.args.args[0].arg)
     saw = set()
-    for ps in summarize(fn, plain=True, loop_mode="1"):
+    pss = summarize(fn, plain=True, loop_mode="1")
+    for ps in pss:
         if ps.term != "return":
             continue
         rv = ps.retval
@@ -156,12 +156,10 @@ def _make_cse(ctx, model):
         elif rv[0] == "call" and "zeros" in rv[1] or rv[0] in ("call",) and \
                 "numpy" in rv[1]:
             saw.add("array")
-    # componentwise recursion for multivector and array branches
-    rec_calls = [c for c in ast.walk(fn) if isinstance(c, ast.Call)
-                 and isinstance(c.func, ast.Name)
-                 and c.func.id == "make_common_subexpression"]
-    ok = len(rec_calls) >= 2 and "for bits, coeff in field.data.items()" in src \
-        and "numpy.ndindex(logical_shape)" in src
+    # componentwise recursion for multivector and array branches: whatever is
+    # put into the rebuilt container is either the recursive call on the
+    # component being visited or (arrays) that component when it is constant
+    ok = _componentwise(pss, fn.name, F)
     ctx.ob("K/make_common_subexpression/componentwise", ok, loc,
            "multivector coefficients and object-array entries are wrapped one by "
            "one" if ok else
@@ -169,6 +167,63 @@ def _make_cse(ctx, model):
            "coefficient / array entry")
     ctx.ob("O/make_common_subexpression/exits", {"as-is", "wrap"} <= saw, loc,
            f"exits {sorted(saw)}")
+
+
+def _componentwise(pss, self_name, F):
+    """Every path that returns a rebuilt container (mapping over the items of
+    an attribute of *field*, or array filled over ``ndindex`` of its shape)
+    fills each slot from the matching component through *self_name*."""
+    from ..summary import contains
+
+    def of_field(v):
+        return contains(v, lambda x: x == F)
+
+    def self_call_on(v, comp):
+        return isinstance(v, tuple) and v[0] == "call" and v[1] == self_name \
+            and v[2] and v[2][0] == comp
+
+    kinds = set()
+    for ps in pss:
+        if ps.term != "return" or not isinstance(ps.retval, tuple):
+            continue
+        hits = []
+        contains(ps.retval, lambda x: hits.append(x) or False
+                 if isinstance(x, tuple) and x and x[0] in ("dict", "dictextend")
+                 else False)
+        for h in hits:
+            if h[0] == "dict":
+                # ('dict', key, value, ('items', M) [, filters])
+                src = h[3]
+                if not (isinstance(src, tuple) and src[0] == "items"
+                        and of_field(src[1])):
+                    continue
+                if len(h) > 4 and h[4]:
+                    return False            # a filter drops coefficients
+                if not self_call_on(h[2], ("val", src[1])):
+                    return False
+                kinds.add("mapping")
+            else:
+                # ('dictextend', base, key, value, iter)
+                _, base, key, val, it = h[:5]
+                if not (isinstance(it, tuple) and it[0] == "call"
+                        and it[1].endswith("ndindex") and of_field(it)):
+                    continue
+                if key != ("elem", it):
+                    return False
+                comp = ("index", F, None, key)
+                if val == comp:
+                    if not any(pol and isinstance(v, tuple) and v[0] == "call"
+                               and v[1] == "is_constant" and v[2] == (comp,)
+                               for pol, v in _conds(ps)):
+                        return False
+                elif not self_call_on(val, comp):
+                    return False
+                kinds.add("array")
+    return kinds == {"mapping", "array"}
+
+
+def _conds(ps):
+    return [(pol, v) for _, pol, v in ps.conds if isinstance(v, tuple)]
 
 
 def _key_getter(ctx, model):
